@@ -958,7 +958,7 @@ SRC_KINDS = {
 }
 
 
-def gf_run(text, timeout=60):
+def gf_run(text, timeout=600):
     """compile and run one complete Fortran source with gfortran -> ('ok', stdout) | ('compile-error', msg) | ('run-error', msg)"""
     d = tempfile.mkdtemp(prefix='c34_')
     try:
@@ -966,14 +966,17 @@ def gf_run(text, timeout=60):
             fh.write(text)
         flags = [f for f in fir.GFORTRAN_FLAGS if f != '-fdefault-real-8'] if isinstance(fir.GFORTRAN_FLAGS, (list, tuple)) \
             else fir.GFORTRAN_FLAGS.split()
-        p = subprocess.run(['gfortran'] + list(flags) + ['-o', 'p.x', 'p.f90'], cwd=d, capture_output=True, text=True, timeout=timeout)
+        try:
+            p = subprocess.run(['gfortran'] + list(flags) + ['-o', 'p.x', 'p.f90'], cwd=d, capture_output=True, text=True, timeout=timeout)
+        except subprocess.TimeoutExpired:
+            return ('timeout', 'compile')
         if p.returncode != 0:
             err = [l for l in p.stderr.splitlines() if 'Error' in l or 'error' in l]
             return ('compile-error', (err[0] if err else p.stderr[-200:]).strip()[:200])
         try:
             q = subprocess.run(['./p.x'], cwd=d, capture_output=True, text=True, timeout=timeout)
         except subprocess.TimeoutExpired:
-            return ('run-error', 'timeout')
+            return ('timeout', 'run')
         if q.returncode != 0:
             err = [l for l in q.stderr.splitlines() if l.strip()]
             return ('run-error', (err[0] if err else f'rc={q.returncode}')[:200])
@@ -999,7 +1002,8 @@ def real_src(kind, spec):
 
 K_DD_LEFT = 'dedup-removed-name-left-behind'      # KnownDedupLeft (replaces the narrower declaration-only class)
 K_DD_MULTI = 'dedup-second-caller-misaligned'     # KnownDedupMulti
-ALL_CLASSES = [K_SEQ_RANK, K_SEQ_SHORT, K_SEQ_KW, K_DD_MULTI, K_DD_LEFT, K_DD_INTENT, K_SH_LB, K_SH_CAP, K_DT_LB, K_DT_CLASH,
+K_DD_SHAPE = 'dedup-differing-dummy-declarations' # KnownDedupShape
+ALL_CLASSES = [K_SEQ_RANK, K_SEQ_SHORT, K_SEQ_KW, K_DD_MULTI, K_DD_LEFT, K_DD_INTENT, K_DD_SHAPE, K_SH_LB, K_SH_CAP, K_DT_LB, K_DT_CLASH,
                K_TB_PASS, K_TB_NOPASS]
 
 
@@ -1017,6 +1021,19 @@ def known_dedup_multi(prog):
                 callers += 1
         if callers >= 2:
             return True
+    return False
+
+
+def known_dedup_shape(prog):
+    """Lean: KnownDedupShape on some call — the dummies of a group are declared with different types or bounds"""
+    for g, gs in dedup_groups(prog):
+        for _, ds in gs:
+            if len(ds) >= 2:
+                d0 = decl_of(g, ds[0])
+                for r in ds[1:]:
+                    d = decl_of(g, r)
+                    if d0 is not None and d is not None and (str(d0[2]) != str(d[2]) or dumps(d0[4]) != dumps(d[4])):
+                        return True
     return False
 
 
@@ -1078,8 +1095,19 @@ _SRC_FUT = {}
 _POOL = []
 
 
+def _prepare_src(kind, spec, pool):
+    """Loki part in the calling thread (the frontend is not thread safe), the two gfortran runs on the pool when given"""
+    try:
+        mod, drv, text = real_src(kind, spec)
+    except TransformError as e:
+        return ('exc', str(e))
+    if pool is None:
+        return ('ok', gf_run(mod + drv), gf_run(text + '\n' + drv))
+    return ('ok', pool.submit(gf_run, mod + drv), pool.submit(gf_run, text + '\n' + drv))
+
+
 def prefetch_src(prop, reqs):
-    """start the gfortran oracle of `src` requests on a thread pool (compilations dominate and run outside the GIL); purely a
+    """start the gfortran runs of `src` requests on a thread pool (compilations dominate and run outside the GIL); purely a
     cache: `oracle_src` recomputes whatever is not there"""
     from concurrent.futures import ThreadPoolExecutor
     if not _POOL:
@@ -1089,11 +1117,11 @@ def prefetch_src(prop, reqs):
             kind, name, spec, flag = decode(req)
         except Exception:
             continue
-        if kind != 'src':
+        if kind != 'src' or name not in SRC_KINDS:
             continue
         key = name + ' ' + dumps(spec)
         if key not in _SRC_FUT:
-            _SRC_FUT[key] = _POOL[0].submit(prop._oracle_src, name, spec)
+            _SRC_FUT[key] = _prepare_src(name, spec, _POOL[0])
 
 
 def known_src_witnesses():
@@ -1161,7 +1189,7 @@ class C34(Prop):
 
     # ---- generation
     def gen(self, rng, tier):
-        n = {'quick': 12, 'thorough': 150, 'search': 60}.get(tier, 12)
+        n = {'quick': 10, 'thorough': 100, 'search': 50}.get(tier, 10)
         for j in range(n):
             base = fir.gen_program(rng, GEN_CFG)
             inputs = fir.gen_inputs(rng, base, 2)
@@ -1173,7 +1201,7 @@ class C34(Prop):
             if k and rng.random() < 0.12:
                 prog = add_second_caller(rng, prog)
             yield Case([A('dedup'), prog, inputs, gf], stream='dedup', nontrivial=has_dups(prog))
-        n_src = {'quick': 6, 'thorough': 120, 'search': 40}.get(tier, 6)
+        n_src = {'quick': 5, 'thorough': 80, 'search': 30}.get(tier, 5)
         srcs = [gen_src(rng) for j in range(n_src)]
         cases = [Case([A('src'), A(kind), spec, A('gf')], stream='src-' + kind) for kind, spec in srcs]
         prefetch_src(self, [c.req for c in cases] + known_src_witnesses())
@@ -1212,6 +1240,8 @@ class C34(Prop):
         else:
             if known_dedup_multi(prog):
                 cs.append(K_DD_MULTI)
+            if known_dedup_shape(prog):
+                cs.append(K_DD_SHAPE)
             if known_dedup_intent(prog):
                 cs.append(K_DD_INTENT)
             elif dedup_alias_written(prog):
@@ -1256,26 +1286,21 @@ class C34(Prop):
         return []
 
     def oracle_src(self, kind, spec):
-        """results are a deterministic function of (kind, spec); `prefetch_src` may have started the computation already"""
-        key = kind + ' ' + dumps(spec)
-        fut = _SRC_FUT.pop(key, None)
-        if fut is not None:
-            return list(fut.result())
-        return self._oracle_src(kind, spec)
-
-    def _oracle_src(self, kind, spec):
+        """results are a deterministic function of (kind, spec); `prefetch_src` may have started the compilations already"""
         if kind not in SRC_KINDS:
             raise ValueError('unknown source kind')
         cs = SRC_KINDS[kind][1](spec)
         cls = cs[0] if cs else None
-        try:
-            mod, drv, text = real_src(kind, spec)
-        except TransformError as e:
-            return [Failure(f'{kind}: transformation raised {e}', cls)]
-        a = gf_run(mod + drv)
+        pre = _SRC_FUT.pop(kind + ' ' + dumps(spec), None)
+        if pre is None:
+            pre = _prepare_src(kind, spec, None)
+        if pre[0] == 'exc':
+            return [Failure(f'{kind}: transformation raised {pre[1]}', cls)]
+        a, b = pre[1].result() if hasattr(pre[1], 'result') else pre[1], pre[2].result() if hasattr(pre[2], 'result') else pre[2]
+        if a[0] == 'timeout' or b[0] == 'timeout':
+            return []           # machine too loaded: inconclusive, nothing is claimed for this input
         if a[0] != 'ok':
             return [Failure(f'{kind}: generated original does not build/run: {a}', error=True)]
-        b = gf_run(text + '\n' + drv)
         if b[0] == 'compile-error':
             return [Failure(f'{kind}: gfortran rejects the transformed call tree: {b[1]}', cls)]
         if b[0] != 'ok':
